@@ -27,7 +27,7 @@ ASSUMPTIONS = [
 ]
 PROBES = ["decodable_not_dispatched", "inject.truncated", "inject.empty", "inject.random", "inject.flip", "inject.fid_subst", "inject.seq_subst", "inject.unknown_id", "inject.repeated", "inject.stale_own_reply", "mode.renegotiate",
           "undecodable_ignored", "decodable_dispatched", "pending_seq_foreign_fid", "pending_seq_own_fid", "pending_call_timed_out_after_bad_frame",
-          "after_command_ok", "mode.idle", "mode.pending"]
+          "after_command_ok", "mode.idle", "mode.pending", "mode.wrap", "wrapped_onto_stale_sequence"]
 
 VERSIONS = list(range(4, 15))
 BASE = ["stackStatusHandler", "incomingMessageHandler", "messageSentHandler", "trustCenterJoinHandler", "childJoinHandler",
@@ -47,6 +47,8 @@ def plan(tier):
             for i in range(0, len(BASE), 6):
                 sweeps.append(("trunc", {"V": V, "mode": mode, "frames": BASE[i:i + 6], "sched": False}))
         sweeps.append(("renegotiate", {"V": V, "sched": False}))
+        for stale in ("undecodable", "timeout", "cancel"):
+            sweeps.append(("wrap", {"V": V, "stale": stale, "sched": False}))
     return {
         "sweeps": sweeps,
         "exhaustive": "versions 4..14 x {no command pending, under a pending command's sequence} x every truncation (length 0..len-1, and the intact frame) of the base frame set present in that version",
@@ -313,6 +315,60 @@ def run(scenario, params, tape, detail=False):
                 except Exception as e:  # noqa: BLE001
                     viol.append(("C08.after", "command-failed", f"v{V}: {n} (ID 0x{ncp.cmds[n][0]:02X}) issued after renegotiation raised {e!r}; a frame with that ID had arrived while the legacy handler was active"))
                     break
+            return
+        if scenario == "wrap":
+            # a command loses its reply (undecodable reply under its sequence / no reply / caller gone): its registration at sequence S stays behind.
+            # 255 further commands later the 8-bit sequence number is S again: "commands issued afterwards still complete normally"
+            probe("mode.wrap")
+            stale = params["stale"]
+            hold["on"] = True
+            hold["reqs"].clear()
+            call = loop.create_task(ez.getValue(valueId=t.EzspValueId.VALUE_FREE_BUFFERS))
+            await asyncio.sleep(0.1)
+            if not hold["reqs"]:
+                viol.append(("C08.after", "request-lost", f"v{V}: getValue request did not reach the NCP"))
+                call.cancel()
+                return
+            req, genuine = hold["reqs"][0]
+            if stale == "undecodable":
+                L = len(genuine) - 1
+                while L > 0 and decodes(V, genuine[:L])[1]:
+                    L -= 1
+                data = genuine[:L]
+                injected.append(data)
+                probe("inject.truncated")
+                nr = len(raised)
+                ncp.emit(data, 0.0, "bad")
+                await asyncio.sleep(0.2)
+                if len(raised) > nr:
+                    viol.append(("C08.noraise", "escaped", f"v{V}: EZSP.frame_received raised {raised[-1][2]} for the truncated reply {data.hex()}"))
+            if stale == "cancel":
+                call.cancel()
+                await asyncio.sleep(0.01)
+            else:
+                await asyncio.wait([call], timeout=10.5)
+                if not call.done():
+                    viol.append(("C08.after", "pending-command-never-ended", f"v{V}: getValue (seq {req.seq}) with {stale} reply neither returned nor timed out"))
+                    call.cancel()
+                    await asyncio.sleep(0.01)
+            hold["on"] = False
+            injected.append(b"wrap" + stale.encode())
+            for i in range(259):
+                before = token[0]
+                try:
+                    async with asyncio.timeout(10.5):
+                        r = await ez.getEui64()
+                except Exception as e:  # noqa: BLE001
+                    viol.append(("C08.after", "command-failed-after-wrap", f"v{V}: command #{i + 1} issued after a getValue under sequence {req.seq} was left unanswered ({stale}) raised {e!r} "
+                                 f"(the 8-bit sequence number is {(req.seq + 1 + i) % 256} again)"))
+                    break
+                if int.from_bytes(bytes(r[0].serialize()), "little") != before + 1:
+                    viol.append(("C08.after", "wrong-value", f"v{V}: command #{i + 1} after the unanswered getValue returned a foreign value"))
+                    break
+                if (req.seq + 1 + i) % 256 == req.seq:
+                    probe("wrapped_onto_stale_sequence")
+            else:
+                probe("after_command_ok")
             return
         if scenario == "trunc":
             mode = params["mode"]
